@@ -85,6 +85,26 @@ let run_small () =
       List.map (fun c -> match String.split_on_char ':' c with
           | [m; n; f] -> { c_mem = zi (int_of_string m); c_nodes = zi (int_of_string n); c_free = if f = "-" then [] else List.map (fun x -> zi (int_of_string x)) (String.split_on_char ',' f) }
           | _ -> { c_mem = zi 0; c_nodes = zi 0; c_free = [] }) (String.split_on_char ';' s) in
+  (* the whole list (chunk order, free chains, both cursors) carried by SmallList in lock-step *)
+  let sm = ref None and smops = ref 0 in
+  let pos_of_addr cs a = if a = -999999 then 0 else (let rec go i = function [] -> -1 | c :: tl -> if iz c.c_mem - 32 = a then i + 1 else go (i + 1) tl in go 0 cs) in
+  let resync caps =
+    let k = kvs caps in
+    let cs = parse_chunks (try List.assoc "chunks" k with Not_found -> "-") in
+    let cur key = (try nat_of_int (max 0 (pos_of_addr cs (int_of_string (List.assoc key k)))) with Not_found -> nat_of_int 0) in
+    sm := Some { sm_ns = zi !ns; sm_chunks = cs; sm_ac = cur "ac"; sm_dc = cur "dc" } in
+  let compare_sm caps line =
+    match !sm with
+    | None -> ()
+    | Some l ->
+      let k = kvs caps in
+      let got = parse_chunks (try List.assoc "chunks" k with Not_found -> "-") in
+      let flat cs = List.map (fun c -> (iz c.c_mem, iz c.c_nodes, List.map iz c.c_free)) cs in
+      let cur key = (try pos_of_addr got (int_of_string (List.assoc key k)) with Not_found -> -2) in
+      if flat l.sm_chunks <> flat got then (diverge "SmallList: chunk order / free chains differ from the model" line; resync caps)
+      else if List.mem_assoc "ac" k && (cur "ac" <> int_of_nat l.sm_ac || cur "dc" <> int_of_nat l.sm_dc) then
+        (diverge (Printf.sprintf "SmallList: cursors differ (model alloc=%d dealloc=%d, list alloc=%d dealloc=%d)" (int_of_nat l.sm_ac) (int_of_nat l.sm_dc) (cur "ac") (cur "dc")) line; resync caps)
+      else if (try int_of_string (List.assoc "cap" k) <> iz (sm_capacity l) with Not_found -> false) then diverge "SmallList: capacity() differs from the free nodes of the model" line in
   (try
      while true do
        let line = input_line stdin in
@@ -93,6 +113,7 @@ let run_small () =
        | [head; mid; caps] when String.length head >= 5 && String.sub head 0 5 = "small" ->
          let k = kvs mid in
          ns := int_of_string (List.assoc "ns" k); dbl := (List.assoc "dbl" k = "1"); ptr := (List.assoc "ptr" k = "1");
+         sm := Some (sm_empty (zi !ns)); compare_sm caps line;
          prev_chunks := (try List.assoc "chunks" (kvs caps) with Not_found -> "-");
          prev_dc := (try int_of_string (List.assoc "dc" (kvs caps)) with Not_found -> -999999)
        | [head; caps] ->
@@ -118,13 +139,27 @@ let run_small () =
                   if List.sort compare exp <> List.sort compare got then diverge "chunk free chains differ from the model after a valid release" line
                 | _ -> diverge "model: a valid release is refused" line)
              | _ -> ());
+            (match !sm, lhs, rhs with
+             | Some l, "ins" :: off :: size :: _, _ -> incr smops; sm := Some (sm_insert l (zi (int_of_string off)) (zi (int_of_string size))); compare_sm caps line
+             | Some l, "a" :: _, "ok" :: p :: _ ->
+               incr smops;
+               (match sm_alloc l with
+                | Some (x, l') -> if iz x <> int_of_string p then diverge (Printf.sprintf "SmallList: model allocates the node at %d" (iz x)) line; sm := Some l'; compare_sm caps line
+                | None -> diverge "SmallList: the model finds no chunk with a free node" line; resync caps)
+             | Some l, "d" :: _, "released" :: p :: _ ->
+               incr smops;
+               (match sm_dealloc l (zi (int_of_string p)) with
+                | Some l' -> sm := Some l'; compare_sm caps line
+                | None -> diverge "SmallList: the released node is in no chunk of the model" line; resync caps)
+             | Some _, "bad" :: _, c :: _ -> if c = "accepted" then resync caps else compare_sm caps line
+             | _ -> ());
             prev_chunks := chunks_now;
             prev_dc := (try int_of_string (List.assoc "dc" k) with Not_found -> -999999)
           | None -> ())
        | _ -> ()
      done
    with End_of_file -> ());
-  Printf.printf "SUMMARY ops=%d diverged=%d bad_calls=%d\n" !ops !bad !bads
+  Printf.printf "SUMMARY ops=%d diverged=%d bad_calls=%d list_steps=%d\n" !ops !bad !bads !smops
 
 (* the real free_memory_list in lock-step with UnorderedList: nodes in link order after every operation *)
 let run_unord () =
